@@ -420,6 +420,11 @@ func (d *driver) do(c Case) {
 		case c.Entry == "Lspace" && c.Align == 0:
 			fmt.Fprintf(d.tie, "lspace\t%s\t%d\t%d\t%d\n", hexOrDash(c.in), c.P, a.v[0], b.v[0])
 			d.rep.TieCases++
+		case c.Entry == "Quote" && c.Align == 0 && c.Flags == 0 && c.Cap < 6*len(c.in) && len(c.in) > 0 && d.rep.Evaluations%3 == 0:
+			// the bounded path of quote(): memcchr_quote with a destination capacity (first call decides ret / dn when the
+			// destination fills up before an escape is written, or when nothing needs escaping)
+			fmt.Fprintf(d.tie, "qcap\t%s\t%d\t%d\t%d\t%d\t%d\n", hexOrDash(c.in), c.Cap, a.v[0], a.v[1], b.v[0], b.v[1])
+			d.rep.TieCases++
 		case c.Entry == "Vstring" && c.Align == 0 && c.P == 1 && c.Flags == 0 && a.v[2] == 7 && len(c.in) >= 2:
 			// terminated string "body": Ep = position of the first backslash (relative to the document) or -1
 			body := c.in[1 : a.v[1]-1]
